@@ -39,7 +39,7 @@ def op_json(o):
         return {"o": k, "a": o[1]}
     if k in ("get", "query", "getcommitted"):
         return {"o": k, "a": o[1], "k": hx(o[2])}
-    if k == "setbal":
+    if k in ("setbal", "addbal"):
         return {"o": k, "a": o[1], "z": str(o[2])}
     if k == "setnonce":
         return {"o": k, "a": o[1], "n": o[2]}
@@ -91,6 +91,8 @@ def gop(o, keys=KEYS, naddr=len(ADDRS)):
         return "GetCommitted %d %s" % (o[1], gbytes(o[2]))
     if k == "setbal":
         return "SetBal %d %s" % (o[1], gz(o[2]))
+    if k == "addbal":
+        return "AddBal %d %s" % (o[1], gz(o[2]))
     if k == "setnonce":
         return "SetNonce %d %d" % (o[1], o[2])
     if k == "setcode":
@@ -234,12 +236,12 @@ def cases_source(groups, impl, mode, cfgs="cfg_subsets cfg_current", keys=KEYS, 
     return "\n".join(src) + "\n"
 
 
-def judge(ctx, name, groups, impl, mode, cfgs="cfg_subsets cfg_current", keys=KEYS, shard=400):
+def judge(ctx, name, groups, impl, mode, cfgs="cfg_subsets cfg_current", keys=KEYS, shard=400, addrs=None):
     """returns list of verdicts (one per group) or None when the judge itself broke"""
     vs = []
     for s in range(0, len(groups), shard):
         part = groups[s:s + shard]
-        src = cases_source(part, impl, mode, cfgs, keys)
+        src = cases_source(part, impl, mode, cfgs, keys, addrs or ADDRS)
         rc, out = vlib.coq_eval("%s_%d_%d" % (name, os.getpid(), s // shard), src, timeout=1700)
         v = vlib.parse_verdicts(out)
         if rc != 0 or v is None or len(v) != 3 * len(part):
@@ -263,7 +265,7 @@ def clean_ops(ops, obs):
     return o2, b2
 
 
-def run_groups(ctx, exe, name, groups_ops, mode, cfgs="cfg_subsets cfg_current", keys=KEYS):
+def run_groups(ctx, exe, name, groups_ops, mode, cfgs="cfg_subsets cfg_current", keys=KEYS, addrs=None):
     """groups_ops: list of groups, each a list of histories (op lists).
     Returns (verdicts, impl) where impl[i] is a dict(ops=, obs=, strs=, kec=) per flattened history,
     and index lists per group."""
@@ -274,7 +276,7 @@ def run_groups(ctx, exe, name, groups_ops, mode, cfgs="cfg_subsets cfg_current",
             idx.append(len(flat))
             flat.append(h)
         groups.append(idx)
-    outs, err = run_impl(exe, flat, keys)
+    outs, err = run_impl(exe, flat, keys, addrs=addrs or ADDRS)
     if outs is None:
         ctx.broken("driver:ledger", err[-1500:])
         return None, None, None
@@ -290,7 +292,7 @@ def run_groups(ctx, exe, name, groups_ops, mode, cfgs="cfg_subsets cfg_current",
         ops, obs = clean_ops(h, o["obs"])
         impl.append(dict(ops=ops, obs=obs, strs=o["strs"], kec=o["kec"]))
     ctx.traces_validated += len(flat)
-    vs = judge(ctx, name, groups, impl, mode, cfgs, keys)
+    vs = judge(ctx, name, groups, impl, mode, cfgs, keys, addrs=addrs)
     return vs, impl, groups
 
 
@@ -313,8 +315,10 @@ def gen_tx(r, next_snap, allow_add=True, allow_code=True, n_ops=None, wild=False
             ops.append(("set", a, r.choice(KEYS), r.choice(VALS)))
         elif c < 0.36 and allow_add:
             ops.append(("add", a, r.choice(KEYS), r.choice(VALS)))
-        elif c < 0.46:
+        elif c < 0.43:
             ops.append(("setbal", a, r.choice(BALS)))
+        elif c < 0.46:
+            ops.append(("addbal", a, r.choice([0, 5, 7, -3, 2**65])))
         elif c < 0.52:
             ops.append(("setnonce", a, r.choice(NONCES)))
         elif c < 0.58 and allow_code:
@@ -417,8 +421,10 @@ def gen_soup(r, n):
             ops.append(("set", a, r.choice(KEYS), r.choice(VALS)))
         elif c < 0.27:
             ops.append(("add", a, r.choice(KEYS), r.choice(VALS)))
-        elif c < 0.33:
+        elif c < 0.31:
             ops.append(("setbal", a, r.choice(BALS)))
+        elif c < 0.33:
+            ops.append(("addbal", a, r.choice([0, 5, 7, -3])))
         elif c < 0.37:
             ops.append(("setnonce", a, r.choice(NONCES)))
         elif c < 0.42:
@@ -470,7 +476,7 @@ def op_from_json(j):
         return (k, j["a"])
     if k in ("get", "query", "getcommitted"):
         return (k, j["a"], b(j["k"]))
-    if k == "setbal":
+    if k in ("setbal", "addbal"):
         return (k, j["a"], int(j["z"]))
     if k == "setnonce":
         return (k, j["a"], j["n"])
@@ -501,8 +507,21 @@ def load_corpus(pid):
             if d.get("driver", "ledger") != "ledger":
                 continue
             out.append((f, group_from_json(d["group"]), d.get("expect", "ok"),
-                        [bytes.fromhex(k) for k in d["keys"]] if "keys" in d else KEYS))
+                        [bytes.fromhex(k) for k in d["keys"]] if "keys" in d else KEYS, d.get("mode", 0) & 16))
     return out
+
+
+def run_corpus(ctx, exe, pid, mode, known, nontrivial):
+    """corpus entries first; entries with the same key universe and mode are judged in one Coq run"""
+    batches = {}
+    for fname, group, expect, keys, xmode in load_corpus(pid):
+        batches.setdefault((tuple(keys), xmode), []).append((group, expect))
+    n = 0
+    for (keys, xmode), items in batches.items():
+        decide(ctx, exe, "%sc%d" % (pid, n), [g for g, _ in items], mode | xmode, known, keys=list(keys),
+               nontrivial=nontrivial, expect=[e for _, e in items])
+        n += len(items)
+    return n
 
 
 # ---------------------------------------------------------------- deciding a verdict
@@ -530,6 +549,11 @@ def classify(pb, group):
         if r == 1:
             return "violation", None, "same previous root and same change set but different state roots"
         return "violation", None, "different (previous root, change set) share a state root"
+    if 300000 <= d < 500000:
+        d -= 300000
+        hi, step = d // 10000, d % 10000
+        last = group[hi][step] if hi < len(group) and step < len(group[hi]) else None
+        return "violation", None, "presence of a storage value wrong (present-and-empty vs absent) at step %d of history %d (%r)" % (step, hi, last)
     if 700000 <= d < 900000:
         d -= 700000
         hi, step = d // 10000, d % 10000
@@ -556,10 +580,10 @@ def classify(pb, group):
     return "violation", None, "read disagrees with the specification at step %d of history %d (%r)" % (step, hi, last)
 
 
-def decide(ctx, exe, name, groups_ops, mode, known, keys=KEYS, nontrivial=None, do_shrink=True, expect=None):
+def decide(ctx, exe, name, groups_ops, mode, known, keys=KEYS, nontrivial=None, do_shrink=True, expect=None, addrs=None):
     """run the groups on both sides, judge, classify, report.  known: dict id -> finding.
     expect: optional list (per group) of expected finding ids ("ok" or id) for corpus entries."""
-    vs, impl, groups = run_groups(ctx, exe, name, groups_ops, mode, keys=keys)
+    vs, impl, groups = run_groups(ctx, exe, name, groups_ops, mode, keys=keys, addrs=addrs)
     stats = dict(ok=0, known=0, violation=0, mismatch=0, domain=0)
     if vs is None:
         return stats
@@ -589,14 +613,14 @@ def decide(ctx, exe, name, groups_ops, mode, known, keys=KEYS, nontrivial=None, 
                 continue          # enough replays; the run is a violation already
             if do_shrink and len(gops) == 1 and ctx._n_viol <= 2:
                 def fails(cand):
-                    v2, i2, g2 = run_groups(vlib.Ctx(ctx.pid, ctx.tier, ctx.seed), exe, name + "_sh", [[cand]], mode, keys=keys)
+                    v2, i2, g2 = run_groups(vlib.Ctx(ctx.pid, ctx.tier, ctx.seed), exe, name + "_sh", [[cand]], mode, keys=keys, addrs=addrs)
                     if not v2:
                         return False
                     k2, f2, _ = classify(v2[0][0], [i2[0]["ops"]])
                     return k2 == "violation" or (k2 == "known" and f2 not in known)
                 rep_group = [shrink(fails, gops[0])]
             ctx.violation(text or ("unlisted finding " + str(fid)),
-                          dict(property=ctx.pid, driver="ledger", mode=mode, keys=[k.hex() for k in keys],
+                          dict(property=ctx.pid, driver="ledger", mode=mode, keys=[k.hex() for k in keys], addrs=addrs or ADDRS,
                                group=group_to_json(rep_group), original=group_to_json(gops),
                                verdict=dict(property_predicate=list(pb), correspondence=list(corr)),
                                impl=[impl[i]["obs"] for i in g], what=text))
@@ -622,7 +646,7 @@ def replay_file(ctx, path):
         return 1
     keys = [bytes.fromhex(k) for k in obj["keys"]] if "keys" in obj else KEYS
     group = group_from_json(obj["group"])
-    vs, impl, groups = run_groups(ctx, exe, "replay", [group], obj.get("mode", 7), keys=keys)
+    vs, impl, groups = run_groups(ctx, exe, "replay", [group], obj.get("mode", 7), keys=keys, addrs=obj.get("addrs"))
     if not vs:
         print("judge failed:", ctx.broken_list)
         return 1
@@ -832,10 +856,62 @@ def scen_failed_write_after_delete(r):
     return [base + dele + tail, base + dele + failed + tail, base + failed + dele + tail]
 
 
+def scen_credit_existing(r):
+    """AddBalance on an account that exists in committed state and is otherwise untouched in the block: the
+    credit must reach the root and the store; AddBalance(x) and SetBalance(old + x) are the same change"""
+    a = r.randrange(3)
+    b0, x = r.choice([0, 3, 100]), r.choice([5, 7])
+    base = [("setbal", a, b0), ("setnonce", a, 1), ("flush",), ("commit", 1)] + ([("reopen",)] if r.random() < 0.4 else [])
+    tail = [("flush",), ("commit", 2), ("getbal", a), ("dbdump",), ("reopen",), ("getbal", a), ("set", a, b"a", b"z"), ("flush",), ("commit", 3)]
+    return [base + [("addbal", a, x)] + tail, base + [("setbal", a, b0 + x)] + tail, base + [("getbal", a), ("addbal", a, x)] + tail,
+            base + tail, base + [("addbal", a, x + 2)] + tail]
+
+
+def scen_empty_overwrite(r):
+    """a committed non-empty value overwritten with the empty (non-nil) value stays present-and-empty through
+    commit, eviction, reopen and a rollback to that height (judged with the exact-presence pass)"""
+    a, k = r.randrange(3), r.choice(KEYS)
+    ops = [("set", a, k, b"x"), ("set", a, r.choice([x for x in KEYS if x != k]), b"o"), ("flush",), ("commit", 1),
+           ("set", a, k, b""), ("get", a, k), ("flush",), ("commit", 2), ("get", a, k), ("query", a, b""),
+           r.choice([("reopen",), ("evict", a, 1, b""), ("evict", a, 2, k)]), ("get", a, k), ("query", a, b""),
+           ("set", a, k, b"y"), ("flush",), ("commit", 3), ("get", a, k),
+           ("rollback", 2), ("get", a, k), ("query", a, b""), ("dump",),
+           ("snap",), ("set", a, k, b"t"), ("revert", 0), ("finalise",), ("get", a, k)]
+    return [ops]
+
+
+def scen_prefix_ff(r):
+    """prefix queries whose range key ends in 0xff must not reach the keys that sort after the prefix"""
+    a = r.randrange(3)
+    ops = [("set", a, b"k", b"v1"), ("set", a, b"l", b"v2"), ("set", a, b"la", b"v3"), ("set", a, b"k0", b"v4"), ("flush",), ("commit", 1)]
+    if r.random() < 0.6:
+        ops.append(("reopen",))
+    ops += [("query", a, b"k\xff"), ("query", a, b"k\xff\xff"), ("query", a, b"k"), ("query", a, b"l"), ("query", a, b"\xff"), ("query", a, b"")]
+    return [ops]
+
+
+# an address whose last byte is 0xff, the numerically following address, and a third one
+ADDRS_FF = ["5a1d830bb7ce09d6bbc004e7175c643c7decb0ff", "5a1d830bb7ce09d6bbc004e7175c643c7decb100",
+            "0bb8d4544a8721a99a01ad219eb59cf6a15ef6f1"]
+
+
+def scen_address_ff(r):
+    """(address universe ADDRS_FF) a query with the empty / a short prefix on an account whose address ends in
+    0xff must not see the storage of the numerically following address"""
+    ops = [("set", 0, b"a", b"e1"), ("set", 0, b"b", b"e2"), ("set", 1, b"a", b"n1"), ("set", 1, b"c", b"n3"),
+           ("set", 2, b"a", b"z"), ("flush",), ("commit", 1)]
+    if r.random() < 0.7:
+        ops.append(("reopen",))
+    ops += [("query", 0, b""), ("query", 0, b"a"), ("query", 1, b""), ("get", 0, b"a"), ("query", 0, b"\xff"), ("dump",)]
+    return [ops]
+
+
+EXACT_SCENARIOS = [scen_empty_overwrite]
+
 SCENARIOS = [scen_delete_rewrite_revert, scen_blind_overwrite_cold, scen_read_between_flush_and_commit,
              scen_code_rollback_continuation, scen_window_floor, scen_reverted_setcode_root,
              scen_stale_revision, scen_storage_only_pending, scen_floor_moves, scen_created_account_storage,
-             scen_failed_write_after_delete]
+             scen_failed_write_after_delete, scen_credit_existing, scen_prefix_ff]
 
 
 def scenario_groups(r, per=6):
